@@ -199,7 +199,7 @@ static int stress(uint64_t seed, int rounds, int permille) {
 	struct sigaction sa; memset(&sa, 0, sizeof sa); sa.sa_handler = on_sig; sigaction(SIGUSR1, &sa, NULL);
 	dv_install(seed, permille);
 	uint64_t r = seed * 6364136223846793005ull + 1442695040888963407ull;
-	dv_track((char *)nq + offsetof(struct dispatch_queue_s, do_ref_cnt), 8, 2);
+	dv_track(nq, 16, 2);
 	for (int i = 0; i < rounds; i++) {
 		rnd(&r);
 		int n = 2 + (int)((r >> 33) % (MAXT - 1));
@@ -208,7 +208,7 @@ static int stress(uint64_t seed, int rounds, int permille) {
 		dispatch_set_context(sg, ctxbuf + 4); dispatch_set_finalizer_f(sg, finalizer);
 		atomic_store(&t_x, 1); atomic_store(&t_i, 0); atomic_store(&t_e, 0);
 		// untrack the previous group, keep the queue words
-		dv_untrack_all(); dv_track((char *)nq + offsetof(struct dispatch_queue_s, do_ref_cnt), 8, 2);
+		dv_untrack_all(); dv_track(nq, 16, 2);
 		dv_track(sg, sizeof(struct dispatch_group_s), 1);
 		dv_user(DVU_MARK, 1, (unsigned long long)i, 0);
 		// give the workers a few external references to work with
